@@ -479,6 +479,12 @@ static void c10_case(int e, uint64_t v) {
   ta_reset_stats();
   size_t got = vh_call_encoder(e, v, buf, wl);
   if (TA.requests) vh_violation("allocates", "cbor_encode_%s made %llu allocator requests", enc_names[e], (unsigned long long)TA.requests);
+  if (e == E_CTRL && v >= 24 && v < 32) {
+    /* RFC 8949 gives simple values 24..31 no well-formed encoding: only safety is judged here, not the bytes */
+    free(buf);
+    VH_COUNT("ctrl_24_31_not_judged", 1);
+    return;
+  }
   if (got != wl) vh_violation("length-mismatch", "cbor_encode_%s(%llu) returned %zu into a %zu-byte buffer; the RFC 8949 head is %s", enc_names[e], (unsigned long long)v, got, wl, vh_hex(want, wl, 16));
   else if (memcmp(buf, want, wl)) vh_violation("bytes-mismatch", "cbor_encode_%s(%llu) wrote %s, the RFC 8949 head is %s", enc_names[e], (unsigned long long)v, vh_hex(buf, wl, 16), vh_hex(want, wl, 16));
   else {
